@@ -270,6 +270,10 @@ def rules(chk: Check) -> None:
     r13_4(chk)
     # the momenta and Jacobians read by getDeltas are cached grid state: they must be mutually consistent
     # for every history of rescaling calls (shared typestate rule of C17)
-    from .c17 import cache_coherence
+    from .c17 import cache_coherence, jacobian_identity
     cache_coherence(chk, "R13.5")
     chk.floor("R13.5", 8)
+    # the momentum Jacobians in the measure are the derivatives of the momentum maps (both grid classes share them)
+    jacobian_identity(chk, "R13.6", "grid:Grid", (1, 2))
+    jacobian_identity(chk, "R13.6", "grid3Scales:Grid3Scales", (1, 2))
+    chk.floor("R13.6", 4)
